@@ -158,7 +158,7 @@ def unNode : Nat → UCtx → Xml → String
       let numTxt := match nums with
         | n :: _ => " " ++ replaceAll (replaceAll (strValue n) "\\" "\\\\") "-" "\\-"
         | [] => ""
-      let headTxt := if heads.isEmpty then "" else " - " ++ String.join (heads.map fun h => unNode fuel { parent := t, indent := 0, pDepth := ctx.pDepth } h)
+      let headTxt := if heads.isEmpty then "" else " - " ++ String.join (heads.map fun h => unNode fuel { parent := t, indent := ctx.indent, pDepth := ctx.pDepth } h)
       let subTxt := if subs.isEmpty then "" else "\n" ++ String.join (subs.map fun h => unNode fuel { parent := t, indent := ctx.indent + 1, pDepth := ctx.pDepth } h)
       let fromTxt := if froms.isEmpty then "" else "\n" ++ String.join (froms.map fun h => unNode fuel { parent := t, indent := ctx.indent + 1, pDepth := ctx.pDepth } h)
       let hnotes := (notesBelowL 0 (ks.filter fun k => isElemTag "heading" k || isElemTag "subheading" k)).map (·.1)
@@ -189,7 +189,7 @@ def unNode : Nat → UCtx → Xml → String
       let nm := match docs with | d :: _ => (d.attrs.lookup "name").getD "" | [] => ""
       let hnotes := (notesBelowL 0 (ks.filter fun k => isElemTag "heading" k || isElemTag "subheading" k)).map (·.1)
       ind ++ asciiUpperS nm ++ blockAttrsText t a
-        ++ (if heads.isEmpty then "" else " " ++ String.join (heads.map fun h => unNode fuel { parent := t, indent := 0, pDepth := ctx.pDepth } h))
+        ++ (if heads.isEmpty then "" else " " ++ String.join (heads.map fun h => unNode fuel { parent := t, indent := ctx.indent, pDepth := ctx.pDepth } h))
         ++ (if subs.isEmpty then "" else "\n" ++ String.join (subs.map fun h => unNode fuel { parent := t, indent := ctx.indent + 1, pDepth := ctx.pDepth } h))
         ++ "\n\n" ++ notes hnotes (ctx.indent + 1)
         ++ String.join (docs.map fun d => unNode fuel { parent := t, indent := ctx.indent + 1, pDepth := ctx.pDepth } d)
